@@ -423,19 +423,32 @@ pub fn fax_decode(data: &[u8], params: &CCITTFaxDecodeParams) -> Result<Vec<u8>>
     use fax::{Color, decoder::{pels, decode_g4}};
 
     if params.k < 0 {
+        // the decoder counts columns and rows in 16 bits
+        if params.columns == 0 || params.columns > u16::MAX as u32 {
+            bail!("CCITTFaxDecode: unsupported number of columns {}", params.columns);
+        }
+        if params.rows > u16::MAX as u32 {
+            bail!("CCITTFaxDecode: unsupported number of rows {}", params.rows);
+        }
         let columns = params.columns as usize;
         let rows = params.rows as usize;
 
         let height = if params.rows == 0 { None } else { Some(params.rows as u16)};
-        let mut buf = Vec::with_capacity(columns * rows);
+        let mut buf = Vec::new();
+        let mut bad_line = false;
         decode_g4(data.iter().cloned(), columns as u16, height, |line| {
+            let before = buf.len();
             buf.extend(pels(line, columns as u16).map(|c| match c {
                 Color::Black => 0,
                 Color::White => 255
             }));
-            assert_eq!(buf.len() % columns, 0, "len={}, columns={}", buf.len(), columns);
+            if buf.len() - before != columns {
+                bad_line = true;
+            }
         }).ok_or(PdfError::Other { msg: "faxdecode failed".into() })?;
-        assert_eq!(buf.len() % columns, 0, "len={}, columns={}", buf.len(), columns);
+        if bad_line || buf.len() % columns != 0 {
+            bail!("faxdecode produced a line that is not {} pixels wide", columns);
+        }
 
         if rows != 0 && buf.len() != columns * rows {
             bail!("decoded length does not match (expected {rows}∙{columns}, got {})", buf.len());
